@@ -454,7 +454,7 @@ type snapFile struct {
 }
 
 type histOp struct {
-	Op  string // "log", "setmax", "gc", "snap"
+	Op  string // "log", "setmax", "gc", "snap", "setsync" (Arg 1/0), "peek" (list without flushing; sync mode only)
 	Id  int64
 	Len int64 // bytes of the formatted entry
 	Arg int64 // setmax / gc argument
@@ -550,6 +550,11 @@ func (r *runner) snapshot() []snapFile { return r.snapshotLens(nil, 0) }
 // content explains (diagnostic only).
 func (r *runner) snapshotLens(lens map[int64]int64, h int64) []snapFile {
 	log.Flush()
+	return r.look(lens, h)
+}
+
+// look lists and decodes the files as they are, without flushing.
+func (r *runner) look(lens map[int64]int64, h int64) []snapFile {
 	fis, err := r.vl.ListFiles()
 	if err != nil {
 		panic(err)
@@ -678,6 +683,7 @@ func runHist(rng *rand.Rand, kind string, cal calib, seq *int, gcOnly bool) (his
 	defer sc.Close(shim{})
 	oldMax := atomic.LoadInt64(&log.LogFileMaxSize)
 	oldComb := atomic.LoadInt64(&log.LogFilesCombinedMaxSize)
+	defer log.SetSync(false)
 	defer atomic.StoreInt64(&log.LogFileMaxSize, oldMax)
 	defer atomic.StoreInt64(&log.LogFilesCombinedMaxSize, oldComb)
 
@@ -795,6 +801,25 @@ func runHist(rng *rand.Rand, kind string, cal calib, seq *int, gcOnly bool) (his
 		hc.Ops = append(hc.Ops, histOp{Op: "log", Id: id, Len: length})
 	}
 
+	syncOn := false
+	// SetSync(true) (shakespeare does this when asked to terminate), then a
+	// flush and a look at the files: what was buffered before must be there.
+	doSync := func(on bool) {
+		log.SetSync(on)
+		syncOn = on
+		v := int64(0)
+		if on {
+			v = 1
+		}
+		hc.Ops = append(hc.Ops, histOp{Op: "setsync", Arg: v})
+		if on {
+			doSnap()
+		}
+	}
+	doPeek := func() {
+		hc.Ops = append(hc.Ops, histOp{Op: "peek"})
+		hc.Snaps = append(hc.Snaps, r.look(lens, cal.h))
+	}
 	if gcOnly {
 		if rng.Intn(3) == 0 {
 			doLog()
@@ -815,9 +840,20 @@ func runHist(rng *rand.Rand, kind string, cal calib, seq *int, gcOnly bool) (his
 				doSnap()
 			case k == 2:
 				doGC()
+			case k == 3:
+				doSync(!syncOn)
+			case k == 4 && syncOn:
+				doPeek() // in sync mode every write is in the file already
 			default:
 				doLog()
+				if syncOn && rng.Intn(3) == 0 {
+					doPeek()
+				}
 			}
+		}
+		if !syncOn && rng.Intn(2) == 0 {
+			doLog()
+			doSync(true)
 		}
 	}
 	doSnap()
@@ -859,6 +895,10 @@ func coqHist(h histCase) string {
 			ops = append(ops, "HGc "+vh.Z(o.Arg))
 		case "snap":
 			ops = append(ops, "HSnap")
+		case "peek":
+			ops = append(ops, "HPeek")
+		case "setsync":
+			ops = append(ops, "HSetSync "+vh.Bool(o.Arg != 0))
 		}
 	}
 	for _, s := range h.Snaps {
@@ -936,6 +976,13 @@ func main() {
 		os.Exit(doReplay(*replay))
 	}
 	rng := vh.Rng(*seed)
+
+	// The process's local zone is never UTC here: the header must be written
+	// in UTC whatever the zone (the decoder parses it as UTC). A fixed zone
+	// needs no tz database. The harness itself converts with .UTC() only.
+	zones := []int{5*3600 + 1800, -(9*3600 + 1800), 13*3600 + 2700, -3600, 8 * 3600}
+	zoneOff := zones[int(uint64(*seed)%uint64(len(zones)))]
+	time.Local = time.FixedZone("VERIF", zoneOff)
 
 	nCodec, nRaw, nProbe, nHist, nGC := 700, 300, 120, 80, 220
 	if *tier == "thorough" {
@@ -1143,7 +1190,8 @@ func main() {
 		"codec": len(codec), "codec_entries": entries, "codec_classes": classCount,
 		"raw": len(raw), "raw_kinds": rawKinds,
 		"probe": len(probe), "probe_kinds": probeKinds, "probe_roundtrip_failures": probeFail,
-		"hist": len(hist), "hist_error": histErr, "hist_discarded_goid_glitch": discarded, "hist_log_ops": logs, "hist_gc_ops": gcs, "hist_files_at_end": rotations,
+		"local_zone_offset_s": zoneOff,
+		"hist":                len(hist), "hist_error": histErr, "hist_discarded_goid_glitch": discarded, "hist_log_ops": logs, "hist_gc_ops": gcs, "hist_files_at_end": rotations,
 		"calibration":         map[string]interface{}{"main": []int64{calMain.overhead, calMain.h}, "secondary": []int64{calSec.overhead, calSec.h}},
 		"distinct_nontrivial": nontrivial + histNontrivial,
 		"samples":             samples,
